@@ -39,11 +39,11 @@ func replayRun(e *emitter, c map[string]any) {
 				}
 			}
 		}
-		if t, ok := p["time"].(float64); ok {
-			rc.Point.Time = int64(t)
+		if t, ok := num(p["time"]); ok {
+			rc.Point.Time = t
 		}
 	}
-	if k, ok := c["sigk"].(float64); ok {
+	if k, ok := num(c["sigk"]); ok {
 		rc.SigK = int(k)
 	}
 	rc.HasSig, _ = c["hassig"].(bool)
